@@ -55,6 +55,7 @@ type c07Rec struct {
 	SignedExp time.Time
 	ColExp    time.Time
 	Corrupt   bool
+	Tampered  bool // the expiry column was re-dated or the row was copied from another user
 }
 
 type c07Sys struct {
@@ -100,6 +101,15 @@ func (s *c07Sys) Ops() []string {
 		"dir(up)", "dir(down)", "dir(first-down)", "dir(second-down)", "change(alice)", "change(bob)", "tick(1h)", "tick(95h)", "tick(97h)",
 		"primary(up)", "primary(outage)", "sync", "tamper(copy-alice-to-bob)", "tamper(bump-expiry-alice)", "tamper(flip-byte-alice)")
 	return ops
+}
+
+// genuine: the model's record for user (if any) is one the server itself wrote for
+// that user and nobody touched.  Only for such records (and for "no record") do the
+// presence oracles speak: what the server does with a row somebody copied,
+// re-dated or corrupted - keep it, drop it, not mirror it - is not the statement's
+// business as long as it is never honoured (which the login oracle judges).
+func (s *c07Sys) genuine(r *c07Rec, user string) bool {
+	return r == nil || (!r.Corrupt && r.Subject == user && !r.Tampered)
 }
 
 func (s *c07Sys) valid(r *c07Rec, user string) bool {
@@ -241,6 +251,12 @@ func (s *c07Sys) Apply(op string) (string, string, string) {
 			for _, u := range []string{"alice", "bob"} {
 				want := s.cache[u] != nil
 				got := s.rowPresent(st.cacheDB, u)
+				if got != want && !s.genuine(s.cache[u], u) {
+					if !got {
+						delete(s.cache, u)
+					}
+					continue
+				}
 				if got != want {
 					kind := "evicted-record-survives-in-cache"
 					if want {
@@ -265,6 +281,9 @@ func (s *c07Sys) Apply(op string) (string, string, string) {
 			for i, db := range []*sql.DB{st.db, st.cacheDB} {
 				var jws string
 				var exp, upd int64
+				if (i == 0 && s.primary["alice"] == nil) || (i == 1 && s.cache["alice"] == nil) {
+					continue // a row the model has dropped (swept as expired) may linger physically; it is left alone
+				}
 				if err := db.QueryRow("select jws_data, expiration_epoch, update_epoch from expiring_signed_user_data where username='alice' and type=?", c07Type).Scan(&jws, &exp, &upd); err != nil {
 					continue
 				}
@@ -276,6 +295,7 @@ func (s *c07Sys) Apply(op string) (string, string, string) {
 				}
 				if r := model["alice"]; r != nil {
 					cp := *r
+					cp.Tampered = true
 					model["bob"] = &cp
 				}
 			}
@@ -291,6 +311,7 @@ func (s *c07Sys) Apply(op string) (string, string, string) {
 				if r := models[i]["alice"]; r != nil {
 					db.Exec("update expiring_signed_user_data set expiration_epoch=? where username='alice' and type=?", n.Unix(), c07Type)
 					r.ColExp = n
+					r.Tampered = true
 				}
 			}
 		case "flip-byte-alice":
@@ -381,7 +402,12 @@ func (s *c07Sys) Apply(op string) (string, string, string) {
 		if s.primaryUp && anyAnswers && pw != "" {
 			got := s.rowPresent(st.db, user)
 			want := s.primary[user] != nil && s.primary[user].ColExp.After(vclock.Now())
-			if got != want {
+			if got != want && !s.genuine(s.primary[user], user) {
+				// a tampered row: adopt what the server made of it
+				if !got {
+					delete(s.primary, user)
+				}
+			} else if got != want {
 				kind := "not-refreshed"
 				if got {
 					kind = "not-evicted"
